@@ -67,6 +67,9 @@ class St:
                 return False
         return None
     def variant_test(self, v, var, siblings):
+        if v[0] == 'tryerr' and var in ('Ok', 'Some', 'Err', 'None'):
+            # the value a failed `?` leaves a block / closure with is the failure variant: never Ok / Some
+            return 'yes' if var in ('Err', 'None') else 'no'
         excluded = set()
         for a, t in self.pc:
             if a[0] == 'is' and a[1] == v:
